@@ -10,7 +10,7 @@ RULE = ("cases = (row-length vector with >= 1 non-empty row, dtype, value patter
 ASSUMPTIONS = ["column sums compared exactly as Python numbers for |values| < 2**31 (patterns are reduced to that range), "
                "means within 4 ulp of float64 (float32 for float32 input)",
                "values only: the result dtype of sum(axis=0) is not part of the statement"]
-REQUIRED_FEATURES = ["empty_row", "rows_of_different_lengths", "bool_count", "get_column_values", "same_object_sequence"]
+REQUIRED_FEATURES = ["empty_row", "rows_of_different_lengths", "bool_count", "get_column_values", "same_object_sequence", "narrow_float_column_total"]
 BOUNDS = {"quick": "LV(4,3) with a non-empty row x {bool,int8,int64,uint8,uint64,float32,float64} x 2 patterns x "
                    "{sum(axis=0) method/function, mean(axis=0) method/function, col_counts, get_column_values(j) for every j}; column numbers as numpy scalars of 4 types; same-object sequences (contiguous and pending view) incl. means",
           "thorough": "LV(5,4), 3 patterns, plus int16/int32"}
@@ -23,6 +23,8 @@ def shards(tier):
 
 
 BIG = {"int64": [(1 << 53) + 1, 2, 0, 0], "uint64": [(1 << 63) + 1, 3, 2, 5]}
+# narrow floats whose column TOTAL leaves the element type's range although every element and the column mean fit
+FBIG = {"float32": [3e38, 1.0, 3e38, 2.0], "float16": [30000.0, 1.0, 30000.0, 30000.0]}
 
 
 def cases(shard, tier):
@@ -31,6 +33,9 @@ def cases(shard, tier):
         for dt in ("int64", "uint64"):
             for op in ("sum_m", "sum_f"):
                 yield [[2, 1, 1], dt, "big", op]
+        for dt in FBIG:
+            for op in ("sum_m", "mean_m", "mean_f"):
+                yield [[2, 1, 1], dt, "fbig", op]
         return
     lens = shard["lens"]
     for dt in (DTS if tier == "quick" else DTS + ["int16", "int32"]):
@@ -54,8 +59,12 @@ def check(case, acc):
     if len(set(lens)) > 1:
         acc.feature("rows_of_different_lengths")
         acc.nontrivial()
-    flat = dsl.pattern(dt, size, k) if k != "big" else np.array(BIG[dt], dtype=dt)
-    if k != "big" and flat.dtype.kind in "iu" and flat.dtype.itemsize == 8:
+    if k == "fbig":
+        acc.feature("narrow_float_column_total")
+        flat = np.array(FBIG[dt], dtype=dt)
+    else:
+        flat = dsl.pattern(dt, size, k) if k != "big" else np.array(BIG[dt], dtype=dt)
+    if k not in ("big", "fbig") and flat.dtype.kind in "iu" and flat.dtype.itemsize == 8:
         # keep exact-sum territory: |v| < 2**31 (the >2**53 class is a separate, named case of the thorough tier)
         flat = (flat % np.array(1 << 31, dtype=flat.dtype)).astype(flat.dtype) if flat.dtype.kind == "u" else \
             np.clip(flat, -(1 << 31), 1 << 31).astype(flat.dtype)
@@ -126,6 +135,7 @@ def _check_seq(acc, case, flat, rows, cols, ra):
     if op == "seq_view":
         back = [[7]] + rows[::-1]
         big = RaggedArray(np.array([v for r in back for v in r], dtype=dt), [len(r) for r in back])
+        int(big.size)          # the parent has been asked its size (memoised) before the selection is taken
         ra = big[:0:-1]
     m = len(cols)
     colv = lambda j: ("A", (len(cols[j]),), tuple(pyval(x) for x in cols[j]))
